@@ -584,6 +584,15 @@ def zoo(tier='quick'):
     Z.append(two_zone('xz_gold_gift', dict(gov='gold_gov'), dict(gov='gold_gov'), [G('AA.HH', 'BB.HH')]))
     Z.append(two_zone('xz_goldcb_imports', dict(gov='tre_goldcb', firm='multi'), dict(gov='tre_goldcb', firm='multi'),
                       [I('AA', 'BB'), I('BB', 'AA')]))
+    # a gold-standard zone that gets a second country AFTER the gold purchases of the first were wired up (at construction)
+    p = two_zone('xz_gold_zone_grows', dict(gov='gold_gov'), {}, [lambda p: gift(p, 'AA.HH', 'BB.HH')])
+    economy(p, 'AR', 'AAD', gov='none', firm='fm0', make_country=True, free_xr=False)
+    gift(p, 'AR.HH', 'BB.HH', name='REMIT')
+    Z.append(p)
+    p = two_zone('xz_goldcb_zone_grows', dict(gov='tre_goldcb'), dict(hh='hhexp'), [lambda p: gift(p, 'BB.HH', 'AA.HH')])
+    economy(p, 'AR', 'AAD', gov='none', firm='fm0', make_country=True, free_xr=False)
+    gift(p, 'AR.HH', 'BB.HH', name='REMIT')
+    Z.append(p)
     Z.append(two_zone('xz_gold_mixed', dict(gov='gold_gov', mm=True), dict(gov='cons', caps=True, firm='fm1'),
                       [G('AA.HH', 'BB.CAP'), G('BB.HH', 'AA.HH')]))
     # flows whose source / target are firms and governments (not only households), within and across zones
@@ -638,6 +647,37 @@ def zoo(tier='quick'):
         p.post(serv_post)
         p.features.add('two-dividend-payers')
         Z.append(p)
+    # three regions of one zone; the goods market of the first has TWO rule-based suppliers carrying the same short code (the firms of the other regions)
+    p = Plan('samezone_three_regions_two_importers')
+    economy(p, 'AA', 'XXD', firm='multi', free_xr=False)
+    economy(p, 'BB', 'XXD', gov='none', firm='multi', free_xr=False)
+    economy(p, 'CC', 'XXD', gov='none', firm='multi', free_xr=False)
+
+    def two_importers_post(c):
+        mk = c['AA.GOOD']
+        y = c['AA.HH'].GetVariableName('INC')
+        mk.AddVariable('MU', 'share imported from BB', '0.2')
+        mk.SetExogenous('MU', '[0.2,]*%d' % EXO_LEN)
+        mk.AddSupplier(c['BB.BUS'], 'MU*{0}'.format(y))
+        mk.AddSupplier(c['CC.BUS'], '0.1*{0}'.format(y))
+        c['BB.BUS'].AddMarket(mk)
+        c['CC.BUS'].AddMarket(mk)
+    p.post(two_importers_post)
+    p.features.add('imports')
+    Z.append(p)
+    # a non-profit firm (margin 0) with a capitalist sector in the country, on a goods market that has a second supplier in another region
+    p = Plan('samezone_caps_margin0_second_supplier')
+    economy(p, 'AA', 'XXD', caps=True, firm='fm0', free_xr=False)
+    economy(p, 'BB', 'XXD', gov='none', firm='multi', free_xr=False)
+
+    def second_supplier_post(c):
+        mk = c['AA.GOOD']
+        mk.AddSupplier(c['AA.BUS'])
+        mk.AddSupplier(c['BB.BUS'], '0.15*{0}'.format(c['AA.GOOD'].GetVariableName('DEM_GOOD')))
+        c['BB.BUS'].AddMarket(mk)
+    p.post(second_supplier_post)
+    p.features.add('imports')
+    Z.append(p)
     # a sector living in the external (numeraire) country sends to / receives from real-currency sectors
     p = two_zone('xz_numeraire_fund', {}, dict(caps=True, firm='fm1'), [])
     p.decl('EXT.FUND', lambda c: Sector(c['EXT'], c.nm('FUND')), needs=('EXT',), group='EXT')
